@@ -165,19 +165,36 @@ class ProgGen:
                 e1 = [sterm(rnd, vars_, 1, 0.75) for _ in range(drop)]
                 e2 = [sterm(rnd, vars_, 1, 0.75) for _ in range(drop)]
                 return ('conj', ('call', '=', [gv, g]), ('conj', ('call', 'call', [gv] + e1), ('call', 'call', [gv] + e2)))
+        # the goal may reach the builtin through a chain of variables bound in either order
+        def via_chain(g, mk):
+            x = rnd.random()
+            if x < 0.75:
+                return mk(g)
+            gv, hv = ('V', 'G'), ('V', 'H')
+            if x < 0.85:
+                pre = [('call', '=', [gv, g])]
+            elif x < 0.93:
+                pre = [('call', '=', [gv, hv]), ('call', '=', [hv, g])]      # aliased first, bound afterwards
+            else:
+                pre = [('call', '=', [hv, g]), ('call', '=', [gv, hv])]
+            out = mk(gv)
+            for p_ in reversed(pre):
+                out = ('conj', p_, out)
+            return out
         if r < 0.4:
             drop = rnd.choice([0, 0, 1, 2])
             g, arity = self.plain_goal_term(vars_, drop)
             if arity < drop:
                 drop = 0
             extra = [sterm(rnd, vars_, 1, 0.75) for _ in range(drop)]
-            return ('call', 'call', [g] + extra)
+            return via_chain(g, lambda t: ('call', 'call', [t] + extra))
         if r < 0.65:
             g, _ = self.plain_goal_term(vars_)
-            return ('call', 'once', [g])
+            return via_chain(g, lambda t: ('call', 'once', [t]))
         g, _ = self.plain_goal_term(vars_)
         tmpl = sterm(rnd, vars_, 1, 0.8)
-        return ('call', 'findall', [tmpl, g, ('V', rnd.choice(vars_)) if vars_ else ('_',)])
+        res = ('V', rnd.choice(vars_)) if vars_ else ('_',)
+        return via_chain(g, lambda t: ('call', 'findall', [tmpl, t, res]))
 
     def db_goal(self, vars_):
         rnd = self.rnd
